@@ -151,6 +151,54 @@ pub fn gen_leaves(rng: &mut Rng, kinds: &[(Kind, GenClass)], style: LeafStyle) -
     kinds.iter().enumerate().map(|(i, (k, c))| gen_leaf(rng, *k, *c, style, i)).collect()
 }
 
+/// Values with the coincidences ordinary user data is full of and independent draws never
+/// produce: the identity (zero displacement, identity rotation, unit scale), the identity with one
+/// or two components disturbed, and values whose components all come from a palette of one to three
+/// numbers (equal components, symmetric matrices, many zeros and ones).
+pub fn gen_coincident(rng: &mut Rng, e: &TypeEntry) -> Vec<u64> {
+    let kinds = &e.gen_kinds;
+    match rng.below(4) {
+        0 => e.identity_gen.clone(),
+        1 => {
+            let mut g = e.identity_gen.clone();
+            let n = 1 + rng.usize_below(2);
+            for _ in 0..n {
+                if g.is_empty() {
+                    break;
+                }
+                let i = rng.usize_below(g.len());
+                let st = [LeafStyle::SmallDistinct, LeafStyle::Specials, LeafStyle::RandomBits][rng.usize_below(3)];
+                g[i] = gen_leaf(rng, kinds[i].0, kinds[i].1, st, i);
+            }
+            g
+        }
+        _ => {
+            let np = 1 + rng.usize_below(3);
+            let pal: Vec<i64> = (0..np).map(|_| [0i64, 1, -1, 2, 1, 0, 3, -2, 7, 100][rng.usize_below(10)]).collect();
+            let exotic = rng.chance(1, 3);
+            let ex_style = [LeafStyle::Specials, LeafStyle::RandomBits][rng.usize_below(2)];
+            // one exotic value per kind, shared by every leaf that picks it
+            let mut ex: Vec<((Kind, GenClass), u64)> = Vec::new();
+            kinds
+                .iter()
+                .enumerate()
+                .map(|(i, (k, c))| {
+                    let pick = rng.usize_below(np + exotic as usize);
+                    if pick < np {
+                        small_value(*k, pal[pick])
+                    } else if let Some((_, b)) = ex.iter().find(|(kk, _)| *kk == (*k, *c)) {
+                        *b
+                    } else {
+                        let b = gen_leaf(rng, *k, *c, ex_style, i);
+                        ex.push(((*k, *c), b));
+                        b
+                    }
+                })
+                .collect()
+        }
+    }
+}
+
 fn gen_medium(rng: &mut Rng) -> Medium {
     Medium {
         framing: match rng.below(10) {
@@ -264,7 +312,7 @@ pub fn random_plan(reg: &[TypeEntry], seed: u64, run: u64) -> Plan {
     let e = &reg[ti];
     let medium = gen_medium(&mut rng);
     let style = [LeafStyle::SmallDistinct, LeafStyle::RandomBits, LeafStyle::Specials, LeafStyle::Mixed][rng.usize_below(4)];
-    let gen = gen_leaves(&mut rng, &e.gen_kinds, style);
+    let gen = if rng.chance(1, 5) { gen_coincident(&mut rng, e) } else { gen_leaves(&mut rng, &e.gen_kinds, style) };
     let probe = &e.probes[probe_index(&medium)];
     let mut plan = Plan { ty: e.name.clone(), gen, patch: None, medium, wfaults: vec![], rfaults: vec![], retry: false, in_place: false };
 
@@ -360,6 +408,12 @@ pub fn sweep_plans(reg: &[TypeEntry]) -> Vec<Plan> {
                 let p = &e.probes[probe_index(&medium)];
                 // fault-free
                 out.push(base.clone());
+                // fault-free with the value users hold most often: zero / identity / unit scale
+                let mut q = base.clone();
+                q.gen = e.identity_gen.clone();
+                out.push(q.clone());
+                q.in_place = true;
+                out.push(q);
                 // every single write-fault position, both kinds
                 for k in 0..p.wsteps {
                     for kind in [WKind::Transient, WKind::Permanent] {
@@ -631,7 +685,7 @@ pub fn random_jplan(reg: &[TypeEntry], seed: u64, run: u64) -> JPlan {
     let ti = if rng.chance(45, 100) && !dec.is_empty() { dec[rng.usize_below(dec.len())] } else { rng.usize_below(reg.len()) };
     let e = &reg[ti];
     let style = [LeafStyle::SmallDistinct, LeafStyle::RandomBits, LeafStyle::Specials, LeafStyle::Mixed][rng.usize_below(4)];
-    let gen = gen_leaves(&mut rng, &e.gen_kinds, style);
+    let gen = if rng.chance(1, 5) { gen_coincident(&mut rng, e) } else { gen_leaves(&mut rng, &e.gen_kinds, style) };
     let mut p = JPlan::base(&e.name, gen);
     p.pretty = rng.chance(1, 4);
     p.reader = [JReader::Reader, JReader::Buffered, JReader::Slice, JReader::Str, JReader::Value, JReader::Flatten, JReader::Untagged][rng.usize_below(7)];
@@ -725,6 +779,9 @@ pub fn sweep_jplans(reg: &[TypeEntry]) -> Vec<JPlan> {
                 q.reader = reader;
                 q.pretty = pretty;
                 out.push(q.clone());
+                let mut qi = q.clone();
+                qi.gen = e.identity_gen.clone();
+                out.push(qi);
                 q.w_chunk = 1;
                 q.w_eintr_every = 2;
                 if reader == JReader::Reader || reader == JReader::Buffered {
